@@ -36,10 +36,10 @@
                                   [] otherwise
                        reparsed = enc_res (StringFormatOptions::parse(rendered)) when parsed is Ok,
                                   (4, [], []) otherwise          (tag 4 = "not applicable")
-                       dropped  : bool = drops_repr o  (the class of format_spec_roundtrip_refuted;
-                                  false when parsed is not Ok).  Outside the class
-                                  (dropped = false, parsed Ok) reparsed = parsed is a THEOREM
-                                  (format_spec_roundtrip_partial).
+                       dropped  : bool = "the options carry a representation" (historical name: the
+                                  class of the defect fixed by koto 06483c8; false when parsed is
+                                  not Ok).  Whenever parsed is Ok, reparsed = parsed is a THEOREM
+                                  (format_spec_roundtrip).
 
    run_slice wtab pre t post  =  (start_line, start_col, end_line, end_col, tag, cps, nonascii)
                        the source is pre ++ t ++ post, the token text is t (no '\n' in t)
@@ -122,7 +122,7 @@ Proof. vm_compute. reflexivity. Qed.
 
 Example run_fmtspec_x :
   run_fmtspec 1 [120]
-  = ((0, [(0, [], [], [], [1])], []), [], (0, [(0, [], [], [], [])], []), true).
+  = ((0, [(0, [], [], [], [1])], []), [120], (0, [(0, [], [], [], [1])], []), true).
 Proof. vm_compute. reflexivity. Qed.
 
 Example run_fmtspec_err :
